@@ -14,12 +14,12 @@ _SKIP = ['cppType.cxx', 'cppExpression.cxx', 'filename.cxx', 'cppSimpleType.cxx'
 # CPPArrayType::output_instance builds "[N]" in a std::ostringstream: with -fno-inline its constructor, destructor and
 # str() stay calls into libstdc++ and are modelled as an opaque object (models/stream.c, models/noinline.c);
 # -fno-pic keeps clang from emitting llvm.load.relative lookup tables
-_ARR = dict(tuflags=['-fno-inline', '-fno-pic'], models=['noinline.c'])
+_ARR = dict(tuflags=['-fno-inline', '-fno-pic'], models=['noinline.c', 'c06_noinline.c'])
 _ORACLE = ('an independent recursive-descent reader of C declarators recovers from the printed text exactly the modifier list '
            'applied (const on an array normalised to const elements), the base type and the name')
 
 
-def _h(hid, desc, domain, tus, defs_q, defs_t=None, extra=None, unwind_q=300, unwind_t=1500, cap_q=300, cap_t=2400, tiers=None):
+def _h(hid, desc, domain, tus, defs_q, defs_t=None, extra=None, unwind_q=300, unwind_t=1500, cap_q=600, cap_t=2400, tiers=None):
     d = dict(id=hid, property='C06', src='c06_print.cxx', entry='harness_c06_print', tus=tus, cut=_CUT, skip_ctors=_SKIP,
              desc=desc, domain=domain, oracle=_ORACLE,
              bounds={'quick': {'defs': defs_q, 'unwind': unwind_q, 'cap': cap_q}})
@@ -43,9 +43,18 @@ HARNESSES = [
     _h('c06_print_ptrarr', 'output_instance of pointers and references to arrays: int (*v)[2], int (&v)[2]',
        'the modifier lists [N] * and [N] & (pointer to array, reference to array) over int / unsigned long',
        _TYPE_TUS + _ARR_TUS, {'MAXLEN': 2, 'ALPHA': 4, 'ARRAYS': 1, 'PTRARR': 1}, None, _ARR),
+    _h('c06_unroll_arr', 'unroll_type + output_instance for declarators with arrays (no pointer/reference to array)',
+       'every valid modifier list of length <= 2 over {*, &, const, [N]} containing an array, given to unroll_type outermost first',
+       _TYPE_TUS + _ARR_TUS + _UNROLL_TUS, {'MAXLEN': 2, 'ALPHA': 4, 'ARRAYS': 1, 'PTRARR': 0, 'USE_UNROLL': 1}, None, _ARR),
     _h('c06_unroll_ptr', 'CPPInstanceIdentifier::unroll_type builds the type from the declarator modifier list, then output_instance',
        'every valid modifier list of length <= 2 over {*, &, const}, given to unroll_type outermost first',
        _TYPE_TUS + _UNROLL_TUS, {'MAXLEN': 2, 'ALPHA': 3, 'USE_UNROLL': 1}),
+] + [
+    _h('c06_print_arr3_p%d' % k, 'thorough: array declarators of length <= 3, part %d of 4' % k,
+       'every valid modifier list of length <= 3 over {*, &, const, [N]} containing an array but no pointer/reference to array '
+       '(dealt round-robin to 4 queries)', _TYPE_TUS + _ARR_TUS,
+       {'MAXLEN': 3, 'ALPHA': 4, 'ARRAYS': 1, 'PTRARR': 0, 'NPARTS': 4, 'PART': k}, None, _ARR, unwind_q=1500, cap_q=2400,
+       tiers=('thorough',)) for k in range(4)
 ]
 
 PROPERTY_INFO = {'C06': {'level': 'model_checking',
